@@ -159,6 +159,10 @@ func runC01(c *core.Case) {
 	r := c.R
 	var h, v int64
 	var pts []pt
+	if c.I >= c01Directed && hammerWanted(c, c01Directed) {
+		c01Hammer(c)
+		return
+	}
 	if c.I < c01Directed {
 		zp, e := c.I/40, c.I%40
 		h, v = zp/36, zp%36
@@ -178,9 +182,11 @@ func runC01(c *core.Case) {
 		if r.P(0.0002) || (c.Tier == "thorough" && r.P(0.0003)) { // very long lists (2^15 .. 2^17 + 3 points)
 			n = veryLongLen(r)
 			c.Tag("very-long-list")
+			c.Procs()
 		} else if r.P(0.002) { // long lists around batch sizes (implementations that chunk or parallelise must keep length and order)
 			n = longLen(r)
 			c.Tag("long-list")
+			c.Procs()
 		}
 		for i := 0; i < n; i++ {
 			p := pt{genLon(r, h), genLat(r, h), genAlt(r, v)}
